@@ -203,6 +203,8 @@ def job_field_row(i, tier, seed):
     vars_ = {'o': o, 'e': e}
     vars_.update({('r.' + f): t for f, t in R.items() if t.size() <= 64})
     names = [f for f in post if not post[f].eq(spec[f])]
+    vars_.update({'exp.' + f: spec[f] for f in names})
+    vars_['exp.dmem_unchanged'] = z3.BoolVal(True)
     ck.prove('FieldWrite[%d %s%s]' % (i, nm, types), A, z3.And(*g), vars=vars_, replay=interp.spec_replayer(E, i, names) if names else None, sample=what)
     from spec import regs_inv
     ck.prove('FieldWrite.inv[%d %s]' % (i, nm), A, z3.And(*regs_inv.inv(post)), vars=vars_, witness=False)
